@@ -403,7 +403,7 @@ pub fn def() -> PropertyDef {
 		assumptions: vec!["OpenSSL key parsing, SPKI encoding and signature verification", "RSA keys are fixtures (ring cannot generate RSA); aws-lc-rs RSA generation is sampled sparsely because of its cost"],
 		subs: vec![
 			sweep_sub("fixture-matrix", matrix, check_matrix),
-			prop_sub("fresh", 2_500, 100_000, fresh_case, check_fresh),
+			prop_sub("fresh", 15_000, 100_000, fresh_case, check_fresh),
 			sweep_sub("spki-sweep", |_| {
 				let mut v = Vec::new();
 				for alg in keys::available_algs() {
